@@ -286,4 +286,14 @@ def backport_local(repo: Repo) -> RuleRun:
 
 backport_local.rule_id = "C19.BACKPORT-LOCAL"
 
-RULES = [grid_roles, slice_roles, partition, merged_roles, assemble_walk, backport_local]
+def delete_survives(repo: Repo) -> RuleRun:
+    """An operation addressed through a grid and deleted stays deleted across clear()/backport(): clear() does not touch the deleted set. Same rule as C12.CLEAR-COMPLETE."""
+    from ..report import rebrand
+    from . import c12
+
+    return rebrand(c12.clear_complete(repo), PROP, "C19.DELETE-SURVIVES")
+
+
+delete_survives.rule_id = "C19.DELETE-SURVIVES"
+
+RULES = [grid_roles, slice_roles, partition, merged_roles, assemble_walk, backport_local, delete_survives]
